@@ -36,7 +36,7 @@ Proof. intros Hf. unfold rt_replace_bucket_with. cz; try apply Hf; cz. Qed.
 Lemma cost_occ_replace_with raw im k held keep d : cost dz (occ_replace_with c raw im k held keep d).
 Proof.
   unfold occ_replace_with. apply cost_bind0; [apply cost_ent_elem|]. intros e0.
-  apply cost_bind0; [apply cost_rt_replace_bucket_with; intros e; cz|]. intros b. cz; apply cost_drop_held.
+  apply cost_bind0; [apply cost_on_unwind; [apply cost_rt_replace_bucket_with; intros e; cz|apply cost_drop_held]|]. intros b. cz; apply cost_drop_held.
 Qed.
 
 Lemma cost_write_through k w : cost dz (write_through k w).
@@ -76,9 +76,8 @@ Proof.
   all: try (apply Hz; apply cost_bind0; [apply cost_occ_replace_with|intros ?; apply cost_ret]).
   all: try (apply cost_bind0; [cz|intros ?]; first [apply Hv|apply Hi]).
   all: try (apply Hhv; first [exact Hth|apply cost_when|idtac]; apply cost_on_unwind; [exact Hth|cz]).
-  - eapply cost_weaken; [|apply (cost_bind (D 1 0 0 0) (D R R 1 2)); [exact Hth|intros _]]; [dle_solve|].
+  - eapply cost_weaken; [|apply (cost_bind (D 1 0 0 0) (D R R 1 2)); [apply cost_on_unwind; [exact Hth|cz]|intros _]]; [dle_solve|].
     eapply cost_weaken; [|apply (cost_bind (D R R 1 2) dz); [apply cost_rt_insert|intros _; apply cost_ret]]. dle_solve.
-  - apply Hhv. exact Hth.
   - apply cost_bind0; [apply cost_cb|intros ?]. apply Hhv. apply cost_on_unwind; [exact Hth|cz].
 Qed.
 
@@ -93,7 +92,7 @@ Proof.
   - apply cost_bind0; [eapply cost_weaken; [|apply cost_drop_ent]; dle_solve|intros _; apply cost_ret'].
   - eapply cost_weaken; [|apply (cost_bind dstep (dmul (N.of_nat (length ss)) dstep))].
     + unfold dle, dadd, dmul, dstep. cbn [dh dm da df length]. lia.
-    + apply cost_on_unwind; [apply cost_entry_step|apply cost_drop_ent].
+    + apply cost_entry_step.
     + intros r. apply IH.
 Qed.
 
